@@ -732,6 +732,104 @@ def check_case(ctx, c, r):
     return "ACC"
 
 
+def has_weights(W, c, r):
+    """what C10 says the high-acceptance swap must use: compute_weight of the new/old [0+] path with the right
+    boundary at tis_set['interface_cap'] if set (as calc_cv_vector / wire_fencing do), else the last interface.
+    Returns (ratio with the cap, ratio ignoring the cap, expected weight of new path0, of new path1)."""
+    tis = W.tis
+    e0, e1 = c["e0"], c["e1"]
+    mv = lambda e: "wf" if e["wf"] else "sh"  # noqa: E731
+
+    def iw(e, use_cap=True):
+        i = [fl(x) for x in e["i"]]
+        if use_cap and e["cap"] is not None:
+            i[2] = float(e["cap"])
+        return i
+
+    def ratio(use_cap):
+        path1, old1 = r["objs"][1], r["olds"][1]
+        c1o = tis.compute_weight(path1, iw(e0, use_cap), mv(e0))
+        c2o = tis.compute_weight(old1, iw(e1, use_cap), mv(e1))
+        c1n = tis.compute_weight(old1, iw(e0, use_cap), mv(e0))
+        c2n = tis.compute_weight(path1, iw(e1, use_cap), mv(e1))
+        return 1.0 if (c1o == 0 or c2o == 0) else c1n * c2n / (c1o * c2o)
+    w0 = tis.compute_weight(r["objs"][0], iw(e0), mv(e0)) if e0["wf"] else 1
+    w1 = tis.compute_weight(r["objs"][1], iw(e1), mv(e1)) if e1["wf"] else 1
+    return ratio(True), ratio(False), w0, w1
+
+
+def check_high_acc(ctx, W, c, r):
+    """direct predicate for the swaps that went through high_acc_swap (one draw): accepted iff ξ < ratio of the
+    C10 weights AT THE CAP; status ACC/HAS accordingly; the weights put on the new paths are those weights"""
+    if "err" in r or c["kind"] != "retis" or r["draws"] != 1:
+        return None
+    try:
+        p_cap, p_last, w0, w1 = has_weights(W, c, r)
+    except Exception:  # noqa: BLE001  (cap left of λ0 etc.: compute_weight itself refuses)
+        return None
+    x = float(c["xi"])
+    want = x < p_cap
+    bad = []
+    if r["accept"] != want or r["status"] != ("ACC" if want else "HAS"):
+        bad.append(f"ξ={x!r}: accept={r['accept']} status={r['status']}, but the weight ratio at the cap is {p_cap!r} "
+                   f"(ignoring the cap it would be {p_last!r})")
+    if float(r["w0"]) != float(w0) or float(r["w1"]) != float(w1):
+        bad.append(f"weights set on the new paths ({r['w0']}, {r['w1']}) ≠ compute_weight at the cap ({w0}, {w1})")
+    if bad:
+        ctx.fail("C11:high-acc-swap-weights-ignore-cap",
+                 "high_acc_swap does not use the wire-fencing weights counted up to interface_cap (C10: 'high_acc_swap ratio "
+                 "uses these weights'): " + "; ".join(bad), {k: c[k] for k in c if k != "tag"})
+    return p_cap, p_last
+
+
+def has_cases(ctx, W):
+    """[0+] (sometimes also [0-]) is a wire-fencing ensemble, interface_cap strictly inside (1 < 3 < 5), old and new
+    [0+] paths with frames between the cap and the last interface; ξ on both sides of the ratio at the cap and of
+    the ratio that ignores the cap"""
+    rng = ctx.rng
+    out = []
+    n = 700 if ctx.quick else 12000
+    for _ in range(n):
+        cap = rng.choice((3, 3, 3, 2, 4, None))
+        wf0 = rng.random() < 0.2
+        e0 = ens((NEG, 0, 0), 30, (False, True), wf0, cap)
+        e1 = ens((0, 1, 5), 30, (True, False), True, cap)
+        inner = lambda k: [rng.choice((1, 2, 2, 3, 4, 4)) for _ in range(k)]  # noqa: E731
+        o1 = [rng.choice((-1, 0))] + inner(rng.randint(2, 8)) + [rng.choice((-1, -1, 6))]
+        o0 = [1] + [rng.choice((-1, -2)) for _ in range(rng.randint(1, 3))] + [1]
+        fw = inner(rng.randint(1, 8)) + [rng.choice((-1, -1, 6))]
+        bw = [rng.choice((-1, -2)) for _ in range(rng.randint(0, 3))] + [1]
+        base = {"kind": "retis", "tag": "high-acc-cap", "e0": e0, "e1": e1,
+                "old0": [(o, (100 + k, 1), False, 0) for k, o in enumerate(o0)],
+                "old1": [(o, (200 + k, 1), False, 0) for k, o in enumerate(o1)],
+                "scripts": [mk_script(bw, 300, -1), mk_script(fw, 400, 1)], "xi": Fraction(0)}
+        r = W.run(base)
+        out.append((base, r))
+        if "err" in r or r["draws"] != 1:
+            continue
+        try:
+            p_cap, p_last, _, _ = has_weights(W, base, r)
+        except Exception:  # noqa: BLE001
+            continue
+        xs = set()
+        for p in (p_cap, p_last):
+            for d in (-3, 3):
+                x = Fraction(round(Fraction(p) * (1 << 30)) + d, 1 << 30)
+                if 0 <= x < 1:
+                    xs.add(x)
+            fp = Fraction(p).limit_denominator(10 ** 6)   # the rational ratio of the (small integer) weights
+            if float(fp) == p and fp.denominator & (fp.denominator - 1) == 0 and 0 <= fp < 1:
+                xs.add(fp)      # ξ = ratio exactly, only where the float ratio is exact (strict <: rejected)
+        if p_cap != p_last:
+            xs.add((Fraction(p_cap) + Fraction(p_last)) / 2 if 0 <= (Fraction(p_cap) + Fraction(p_last)) / 2 < 1 else Fraction(1, 2))
+        for x in sorted(xs):
+            # keep ξ a float-exact dyadic
+            xf = Fraction(float(x))
+            cx = dict(base, xi=xf)
+            out.append((cx, W.run(cx)))
+    return out
+
+
 def second_case(c):
     """the follow-up move on the same old paths: longer limits (so that it usually gets further), accept_all"""
     c2 = dict(c)
@@ -778,7 +876,9 @@ def run(ctx):
 
 
 def _run(ctx, W):
-    ctx.rule = ("retis_swap_zero: exhaustive over the frames either new path depends on (last two frames of old [0-], "
+    ctx.rule = ("[high-acceptance swap: seeded wf-[0+] cases with interface_cap strictly inside and frames between cap and last "
+                "interface × ξ on both sides of the weight ratio at the cap and of the ratio ignoring the cap] "
+                "retis_swap_zero: exhaustive over the frames either new path depends on (last two frames of old [0-], "
                 "first two of old [0+], scripted MD streams up to a length over a level alphabet below/at/inside/at/above "
                 "each interface, all (maxlen0,maxlen1) in 2..6 incl. limits hit exactly, plain and λ₋₁ variant), one side at a "
                 "time with the other side fixed; then seeded random cases (longer paths, wf moves, caps, vel_rev flags, ending "
@@ -800,6 +900,7 @@ def _run(ctx, W):
         out = ctx.driver([case_line(c) for c in cases])
     for k, (c, r) in enumerate(zip(cases, results)):
         br = check_case(ctx, c, r)
+        check_high_acc(ctx, W, c, r)
         ctx.count(1, branch=f"retis:{br}", gen=c["tag"])
         if r.get("reqs"):
             ctx.distinct(case_line(c))
@@ -807,6 +908,24 @@ def _run(ctx, W):
         if have_model and cl != out[k]:
             ctx.disagree(strip(c), cl, out[k])
         if k % 15013 == 7:
+            ctx.sample({"case": case_line(c), "code": cl})
+    # ------------------------------------------------------------------ high-acceptance swap with an interface cap
+    hc = has_cases(ctx, W)
+    if have_model:
+        out = ctx.driver([case_line(c) for c, _ in hc])
+    for k, (c, r) in enumerate(hc):
+        br = check_case(ctx, c, r)
+        ctx.count(1, branch=f"has:{br}", gen=c["tag"])
+        pr = check_high_acc(ctx, W, c, r)
+        if pr is not None:
+            ctx.distinct(case_line(c))
+            x = float(c["xi"])
+            if pr[0] != pr[1] and (x < pr[0]) != (x < pr[1]):
+                ctx.hit("has:ξ between the ratio at the cap and the ratio ignoring the cap")
+        cl = code_line(r)
+        if have_model and cl != out[k]:
+            ctx.disagree(strip(c), cl, out[k])
+        if k == 11:
             ctx.sample({"case": case_line(c), "code": cl})
     # ------------------------------------------------------------------ quantis
     qbase = quantis_cases(ctx)
@@ -934,6 +1053,8 @@ def replay(ctx, obj):
         before = len(ctx.fails)
         check_case(ctx, c, res)
         sig = obj.get("signature", "")
+        if sig.startswith("C11:high-acc"):
+            check_high_acc(ctx, W, c, res)
         if sig.startswith("C11:second-move"):
             after_rejection(ctx, W, c, res, fs)
         if sig.startswith("C11:swap-twice") and "err" not in res and res["accept"]:
